@@ -21,7 +21,7 @@ from genjax._src.core.compiler.interpreters.incremental import (
     NoChange,
     UnknownChange,
 )
-from genjax._src.core.compiler.staging import multi_switch, tree_choose
+from genjax._src.core.compiler.staging import FlagOp, multi_switch, tree_choose
 from genjax._src.core.generative import (
     Argdiffs,
     ChoiceMap,
@@ -293,6 +293,7 @@ class Switch(Generic[R], GenerativeFunction[R]):
 
         if Diff.tree_tangent(idx_diff) == NoChange:
             # If the index hasn't changed, perform edits on each branch.
+            same_idx = True
             fs = list(f.edit for f in self.branches)
             f_args = list(
                 (key, trace, edit_request, argdiffs)
@@ -324,8 +325,19 @@ class Switch(Generic[R], GenerativeFunction[R]):
         if Diff.tree_tangent(idx_diff) == UnknownChange:
             weight = score - trace.get_score()
 
-        # TODO: this is totally wrong, fix in future PR.
-        bwd_request: Update = rets[0][3]
+        # Going back means: restore the index the trace had (through the argdiffs) together with
+        # - the values the executed branch's edit overwrote, when the branch did not change,
+        # - ALL the choices of the branch that was left, when it did (the way back re-creates
+        #   that branch and constrains every one of its choices).
+        # Either way these are choices of the branch selected by the OLD index.
+        bwd_constraints = []
+        for old_subtrace, (_, _, _, branch_bwd) in zip(trace.subtraces, rets):
+            assert isinstance(branch_bwd, Update)
+            bwd_constraints.append(
+                branch_bwd.constraint.mask(same_idx)
+                | old_subtrace.get_choices().mask(FlagOp.not_(same_idx))
+            )
+        bwd_request = Update(ChoiceMap.switch(trace.get_idx(), bwd_constraints))
 
         return (
             SwitchTrace(self, primals, subtraces, retval, score),
